@@ -58,6 +58,36 @@ class SegBytes:
   def __deepcopy__(self, memo):
     return self
 
+  # content equality (dict keys, ==): two different single-segment constants
+  # MAY hold the same bytes - a free Boolean per pair, which implies equal
+  # lengths; everything else compares by structure
+  def __hash__(self):
+    return 11
+
+  def __eq__(self, other):
+    if not isinstance(other, SegBytes):
+      return False
+    if [l for l, _ in self.segs] == [l for l, _ in other.segs]:
+      return True
+    if len(self.segs) == 1 and len(other.segs) == 1 and all(
+        str(sg.segs[0][0]).startswith('buf_') for sg in (self, other)):
+      from symx.core import engine, mkbool, SymInt as _SI
+      a, b = sorted([self.segs[0][0], other.segs[0][0]])
+      name = f'same_content_{a}_{b}'
+      e = engine()
+      v = z3.Bool(name)
+      if name not in e.inputs:
+        e.register_input(name, v)
+
+      def zl(n):
+        return n.z if isinstance(n, _SI) else z3.IntVal(int(n))
+      return mkbool(z3.And(v, zl(self.segs[0][1]) == zl(other.segs[0][1])))
+    return False
+
+  def __ne__(self, other):
+    r = self.__eq__(other)
+    return (not r) if isinstance(r, bool) else ~r
+
 
 def symlen(x):
   if isinstance(x, SegBytes):
